@@ -36,6 +36,12 @@ bool run_honest(const HCase &c, std::string &msg) {
     if (crypto_sign_verify_detached(sig.p, mb.p, m.size(), lpk.p) != 0) { msg = "an honest signature was rejected by crypto_sign_verify_detached"; return false; }
     XBuf back(m.size(), 9); unsigned long long bl = 77;
     if (crypto_sign_open(back.p, &bl, sm.p, sml, lpk.p) != 0 || bl != m.size() || back.get() != m) { msg = "an honest signed message was rejected / altered by crypto_sign_open"; return false; }
+    // the message output and the length output are optional (only sm and pk are declared nonnull)
+    bl = 0xdeadbeefULL;
+    if (crypto_sign_open(nullptr, &bl, sm.p, sml, lpk.p) != 0 || bl != m.size()) { msg = "crypto_sign_open(m == NULL) rejected an honest signed message or did not report its length (got " + std::to_string(bl) + ")"; return false; }
+    { XBuf back3(m.size(), 3); if (crypto_sign_open(back3.p, nullptr, sm.p, sml, lpk.p) != 0 || back3.get() != m) { msg = "crypto_sign_open(mlen_p == NULL) rejected / altered an honest signed message"; return false; } }
+    if (!m.empty()) { XBuf bad(sm.get(), 4); bad.p[64 + m.size() / 2] ^= 0x20; bl = 0xdeadbeefULL;
+        if (crypto_sign_open(nullptr, &bl, bad.p, sml, lpk.p) != -1 || bl != 0) { msg = "crypto_sign_open(m == NULL) on an altered message: must return -1 and report length 0 (reported " + std::to_string(bl) + ")"; return false; } }
     // pre-hashed multi-part
     Bytes wantph = ref::ed25519ph_sign(m, sk);
     crypto_sign_state st; XBuf sigph(64, 10); unsigned long long spl = 0;
@@ -88,6 +94,8 @@ bool run_adv(const ACase &c, std::string &msg) {
         r_open = crypto_sign_open(out.p, &ml, sm.p, smv.size(), pk.p);
         if ((r_open == 0) != (r_det == 0)) { msg = "crypto_sign_open and crypto_sign_verify_detached disagree on the same triple"; return false; }
         if (r_open == 0 && (ml != c.msg.size() || out.get() != c.msg)) { msg = "crypto_sign_open accepted but returned a different message"; return false; }
+        { unsigned long long ml2 = 0x5151; int r2 = crypto_sign_open(nullptr, &ml2, sm.p, smv.size(), pk.p);
+          if ((r2 == 0) != (r_open == 0) || ml2 != (r_open == 0 ? c.msg.size() : 0)) { msg = "crypto_sign_open(m == NULL) disagrees with the full form on verdict or reported length"; return false; } }
     }
     if (r_det == 0 && !ok_model) { msg = std::string("verification ACCEPTED a triple (") + AK[c.kind] + ") that violates a necessary condition:" + why_not(vi); return false; }
     if (c.kind == 0 && r_det != 0) { msg = "honest signature rejected"; return false; }
